@@ -179,3 +179,116 @@ def rerun_waiting_task(ctx, rule):
         rule.check(tgt == 'WAITING', ctx.construct(f, ss[0]),
                    'a re-run waiting task is put to %s, not WAITING' % tgt,
                    ctx.loc(f, ss[0]))
+
+
+def comparator_table(ctx, rule):
+    """dispatcher._compare_task_commands over (a is a waiting RunTask, b is
+    one, keys <, ==, >): commands that lock a join are ordered among
+    themselves by unique_key (antisymmetric: cmp(a, b) = -cmp(b, a)), so
+    parallel transactions take the join locks in one order."""
+    prog, sd = ctx.prog, ctx.sd
+    f = prog.func('mistral.engine.dispatcher._compare_task_commands')
+    a, b = f.params[:2]
+    ka1, ka2 = 'isinstance(%s, commands.RunTask)' % a, '%s.is_waiting()' % a
+    kb1, kb2 = 'isinstance(%s, commands.RunTask)' % b, '%s.is_waiting()' % b
+    keq = '%s.unique_key == %s.unique_key' % (a, b)
+    klt = '%s.unique_key < %s.unique_key' % (a, b)
+    t = dt.Table(ctx, f, [(ka1, (True, False)), (ka2, (True, False)),
+                          (kb1, (True, False)), (kb2, (True, False)),
+                          (keq, (True, False)), (klt, (True, False))],
+                 constraint=lambda e: not (e[keq] and e[klt]))
+    rets = t.stmt_nodes(lambda x: isinstance(x, ast.Return))
+    bad = []
+    seen = set()
+    for n in rets:
+        for v in t.full_at(n):
+            e = t.env(v)
+            got = t.ev(n.ast.value, v)
+            seen.add(v[:t.n_in])
+            aw = e[ka1] and e[ka2]
+            bw = e[kb1] and e[kb2]
+            if aw and bw:
+                want = 0 if e[keq] else (-1 if e[klt] else 1)
+                if got != want:
+                    bad.append((e, got, want))
+            elif not aw and bw and got != -1:
+                bad.append((e, got, -1))
+            elif aw and not bw and got != 1:
+                bad.append((e, got, 1))
+    lost = [v for v in t.init_inputs if v not in seen]
+    msg = ''
+    if bad:
+        msg = 'the comparator answers %s where the order by unique key ' \
+              'requires %s for %s; ' % (bad[0][1], bad[0][2], bad[0][0])
+    rule.check(not bad and not lost,
+               ctx.construct(f, extra='waiting commands ordered by unique '
+                             'key'),
+               '%s%d valuation(s) wrong, %d without an answer: two '
+               'transactions can take the join locks in different orders'
+               % (msg, len(bad), len(lost)), ctx.loc(f))
+    t.undecided(rule, 'which of the two commands wait for a join and how '
+                'their keys compare')
+
+
+def scheduled_completion_loads(ctx, rule):
+    """The scheduled completion / update of a with-items child loads the
+    child from the table it lives in: a sub-workflow (wf_action) from the
+    workflow executions, a plain action from the action executions."""
+    prog = ctx.prog
+    for fq, h in ((TH + '._scheduled_on_action_complete',
+                   '_on_action_complete'),
+                  (TH + '._scheduled_on_action_update',
+                   '_on_action_update')):
+        f = prog.func(fq)
+        P = f.params
+        t = dt.Table(ctx, f, [(P[1], (True, False))])
+        wl = t.call_nodes('load_workflow_execution')
+        al = t.call_nodes('load_action_execution')
+        if len(wl) != 1 or len(al) != 1:
+            raise AnalysisError('%s: loads' % fq)
+        t.check_exact(rule, wl[0], lambda e: e[P[1]],
+                      'the child is loaded as a workflow execution',
+                      'sub-workflow children')
+        t.check_exact(rule, al[0], lambda e: not e[P[1]],
+                      'the child is loaded as an action execution',
+                      'plain action children')
+        for n, c in t.cfg.calls(lambda c: U.call_name(c) in (
+                'load_workflow_execution', 'load_action_execution')):
+            rule.check([norm(x) for x in c.args] == [P[0]],
+                       ctx.construct(f, c, extra='the reported id'),
+                       'the child is not loaded by the id the job was '
+                       'scheduled for', ctx.loc(f, c))
+        t.undecided(rule, 'whether the child is a sub-workflow')
+
+
+def backlog_poll(ctx, rule):
+    """Every command saved to the backlog is restored and returned, in
+    order, and the backlog is emptied."""
+    prog = ctx.prog
+    f = prog.func('mistral.engine.dispatcher._poll_commands_from_backlog')
+    W = f.params[0]
+    kget = '%s.runtime_context.get(BACKLOG_KEY)' % W
+    t = dt.Table(ctx, f, [(kget, ((), OBJ))])
+    pops = t.call_nodes('pop')
+    rets = t.stmt_nodes(lambda x: isinstance(x, ast.Return))
+    ok = len(pops) == 1 and len(rets) == 2
+    if ok:
+        ok = t.inputs_at(pops[0]) == {(OBJ,)}
+        for n in rets:
+            v = n.ast.value
+            if isinstance(v, ast.List) and not v.elts:
+                ok = ok and t.inputs_at(n) == {((),)}
+            elif isinstance(v, ast.ListComp):
+                g = v.generators[0]
+                src = U.canon_expr(f.node, g.iter)
+                ok = ok and t.inputs_at(n) == {(OBJ,)} and not g.ifs and \
+                    U.phas(src, '%s.runtime_context.pop(BACKLOG_KEY)' % W) \
+                    and U.phas(v.elt, 'commands.restore_command_from_dict('
+                               '%s, %s)' % (W, norm(g.target)))
+            else:
+                ok = False
+    rule.check(ok, ctx.construct(f, extra='all saved commands restored, '
+                                 'backlog emptied'),
+               'the commands saved while the workflow was paused are not '
+               'all restored (exactly when there are some) and removed from '
+               'the backlog', ctx.loc(f))
